@@ -55,7 +55,13 @@ HF_SOURCES = {
     "hfrect": ("periodic", {"wavetype": "rect", "V": 1, "w": "19999996/10000", "phi": "0"}),
 }
 HF_BASE = {"RChf": [["resistor", "R1", ["1", "2"], {"R": 2}], ["capacitor", "C1", ["2", "0"], {"C": "1/20000"}], ["resistor", "R2", ["2", "0"], {"R": 3}]]}
+# small-signal family: the same kinds of sources with nanovolt / nanoampere amplitudes (spectral lines of 1e-9 and below are lines)
+SMALL_SOURCES = {}
+for _n in ("dc", "ac1", "ac32", "rect", "saw01", "rectl"):
+    _t, _p = SOURCES[_n]
+    SMALL_SOURCES[_n + "_s"] = (_t, dict(_p, V=str(F(_p["V"]) / 10 ** 9)))
 SOURCES_ALL = dict(SOURCES, **HF_SOURCES)
+SOURCES_ALL.update(SMALL_SOURCES)
 BASES_ALL = dict(BASES, **HF_BASE)
 WMAX = ["0", "1/20", "1/4", "7/20", "3/2", "19/20", "5"]
 
@@ -106,6 +112,11 @@ def shards(tier):
                     continue       # a chain 0.2994 / 0.3 / 0.3005 of pairwise-close frequencies has no defined set of distinct lines
                 for fl in ("V", "I"):
                     out.append(("mix%d" % r, (base, mix, fl, tier)))
+    for base in BASES:
+        for r in (1, 2):
+            for mix in itertools.combinations(list(SMALL_SOURCES), r):
+                for fl in ("V", "I"):
+                    out.append(("small%d" % r, (base, mix, fl, tier)))
     hf = list(HF_SOURCES) + ["dc", "ac1"]
     for r in (2, 3) if tier == "quick" else (2, 3, 4):
         for mix in itertools.combinations(hf, r):
